@@ -3,7 +3,7 @@
    bucket whose psi values fall into the target range: WaveletTreePsi meets `psi_ok`. *)
 From Coq Require Import Arith NArith List Bool Lia Sorted Permutation.
 From Blue Require Import Scrunch.ModelBits Scrunch.Model Scrunch.ModelWT Scrunch.ProofsBits
-  Scrunch.ProofsSorted Scrunch.ProofsSuffix Scrunch.ProofsSearch Scrunch.ProofsSigma
+  Scrunch.ProofsSorted Scrunch.ProofsSuffix Scrunch.ProofsIAP Scrunch.ProofsSearch Scrunch.ProofsSigma
   Scrunch.ProofsWT1 Scrunch.ProofsWT2.
 Import ListNotations.
 Local Open Scope nat_scope.
